@@ -1413,6 +1413,12 @@ class CryptographyEngine(api.CryptographicEngine):
                 'For signing, a padding method must be specified.'
             )
 
+        if hash_alg is None:
+            raise exceptions.InvalidField(
+                "For signing, a supported hashing algorithm must be "
+                "specified."
+            )
+
         if padding == enums.PaddingMethod.PSS:
             signature = key.sign(
                 data,
